@@ -40,6 +40,7 @@ type caseCfg struct {
 	pCross         int
 	crossCloseOnly bool
 	scenario       string
+	client         bool
 	writeSizes     []int
 	steps          int
 	maxConns       int
@@ -115,6 +116,14 @@ func genCfg(rnd *tr.Rand, focus string) *caseCfg {
 		}
 		return c
 	}
+	if focus == "client" {
+		c.client = true
+		c.reuseport = true
+		c.pShutdown = 0
+		if rnd.Chance(25) {
+			c.proto, c.udp = "udp", false
+		}
+	}
 	if focus == "stale" {
 		// the reactor's stale-event branch: a callback closes ANOTHER connection that has an
 		// event pending in the same batch
@@ -183,7 +192,7 @@ func main() {
 	}
 	n := *ncases
 	if n == 0 {
-		n = 150
+		n = 90
 		if *tier == "thorough" {
 			n = 3000
 		}
@@ -256,10 +265,47 @@ func runCase(w *tr.Writer, seed uint64, idx int, focus string) {
 	}
 	rec.mu.Lock()
 	rec.ledgerOn = true
-	rec.reactor = !(cfg.udp || (cfg.reuseport && cfg.proto != "unix"))
+	rec.reactor = !(cfg.client || cfg.udp || (cfg.reuseport && cfg.proto != "unix"))
+	rec.client = cfg.client
 	rec.mu.Unlock()
 	done := make(chan error, 1)
-	go func() { done <- gnet.Run(h, addr, opts...) }()
+	var cli *gnet.Client
+	var srvLn net.Listener
+	var srvUDP *net.UDPConn
+	if cfg.client {
+		// the harness is the server; gnet is the client dialling it
+		var err error
+		switch cfg.proto {
+		case "unix":
+			srvLn, err = net.Listen("unix", dialAddr)
+		case "udp":
+			ua, _ := net.ResolveUDPAddr("udp", dialAddr)
+			srvUDP, err = net.ListenUDP("udp", ua)
+		default:
+			srvLn, err = net.Listen("tcp", dialAddr)
+		}
+		if err != nil {
+			return
+		}
+		if srvLn != nil {
+			defer srvLn.Close()
+		}
+		if srvUDP != nil {
+			defer srvUDP.Close()
+		}
+		cli, err = gnet.NewClient(h, opts...)
+		if err == nil {
+			err = cli.Start()
+		}
+		if err != nil {
+			w.Case(fmt.Sprintf("L%d", idx), "loop", append(cfg.header(), "seed="+tr.U64(seed), "idx="+tr.I(idx))...)
+			w.Fail("engine-start", "client-start", fmt.Sprint(err))
+			w.End()
+			return
+		}
+	} else {
+		go func() { done <- gnet.Run(h, addr, opts...) }()
+	}
 	// wait for the loop to be up and idle
 	booted := false
 	for i := 0; i < 4000; i++ {
@@ -417,7 +463,45 @@ func runCase(w *tr.Writer, seed uint64, idx int, focus string) {
 			} else {
 				recvSome(p, 65536, 2*time.Millisecond)
 			}
-		case len(peers) < cfg.maxConns && (len(lp) == 0 || k < 12):
+		case cfg.client && len(peers) < cfg.maxConns && (len(lp) == 0 || k < 12):
+			quiet()
+			rec.mu.Lock()
+			rec.dialUDP = cfg.proto == "udp"
+			rec.mu.Unlock()
+			type acc struct {
+				c   net.Conn
+				err error
+			}
+			ach := make(chan acc, 1)
+			if srvLn != nil {
+				go func() { c, err := srvLn.Accept(); ach <- acc{c, err} }()
+			}
+			gc, err := cli.Dial(dialNet, dialAddr)
+			if err != nil {
+				rec.Fail("client-dial", "error", err.Error())
+				continue
+			}
+			var pc net.Conn
+			if srvLn != nil {
+				a := <-ach
+				pc = a.c
+			} else {
+				// UDP: the "peer" answers from the server socket to the client's local address
+				la := gc.LocalAddr()
+				if la == nil { // closed inside OnOpen already
+					continue
+				}
+				ra, _ := net.ResolveUDPAddr("udp", la.String())
+				pc = &udpPeer{c: srvUDP, to: ra}
+			}
+			p := &peer{conn: pc, cid: -1}
+			peers = append(peers, p)
+			quiet()
+			rec.mu.Lock()
+			p.cid = rec.nextCid - 1
+			rec.mu.Unlock()
+			w.Hist("client-dial")
+		case !cfg.client && len(peers) < cfg.maxConns && (len(lp) == 0 || k < 12):
 			c, err := net.Dial(dialNet, dialAddr)
 			if err != nil {
 				continue
@@ -487,7 +571,11 @@ func runCase(w *tr.Writer, seed uint64, idx int, focus string) {
 			}
 			quiet()
 			cb := rnd.Chance(60)
-			switch kk := rnd.Intn(10); {
+			kk := rnd.Intn(10)
+			if cfg.proto == "udp" && kk < 6 {
+				kk = 6 + kk%4 // datagram AsyncWrite(v) never goes through the loop: only wake/close here
+			}
+			switch {
 			case kk < 4:
 				data := h.payload(rnd.Pick([]int{1, 100, 5000, 100000}))
 				rec.Op(tr.L("async", "write", tr.I(p.cid), tr.X(data), tr.B(cb)))
@@ -525,7 +613,7 @@ func runCase(w *tr.Writer, seed uint64, idx int, focus string) {
 					}
 				}
 				h.mu.Unlock()
-				if n != open && !engineDown() {
+				if n != open && !engineDown() && !cfg.client {
 					rec.Fail("count-connections", "idle", fmt.Sprintf("CountConnections %d != opened-not-closed %d", n, open))
 				}
 			}
@@ -536,7 +624,7 @@ func runCase(w *tr.Writer, seed uint64, idx int, focus string) {
 	lap("steps")
 	// ---- drain: every open connection's accepted output must reach its peer
 	quiet()
-	if !cfg.udp && !engineDown() {
+	if !cfg.udp && cfg.proto != "udp" && !engineDown() {
 		for _, p := range live() {
 			ci := h.byCid(p.cid)
 			if ci == nil || ci.untracked || ci.unflushed {
@@ -566,8 +654,12 @@ func runCase(w *tr.Writer, seed uint64, idx int, focus string) {
 	lap("drain")
 	// ---- stop
 	if !engineDown() {
-		ctx, cancel := context.WithTimeout(context.Background(), 5*time.Second)
-		go func() { h.eng.Stop(ctx); cancel() }()
+		if cfg.client {
+			go func() { done <- cli.Stop() }()
+		} else {
+			ctx, cancel := context.WithTimeout(context.Background(), 5*time.Second)
+			go func() { h.eng.Stop(ctx); cancel() }()
+		}
 		stopped = true
 	}
 	select {
@@ -632,6 +724,19 @@ func runCase(w *tr.Writer, seed uint64, idx int, focus string) {
 	w.End()
 }
 
+// udpPeer lets the harness's UDP server socket play the peer of one connected client socket
+type udpPeer struct {
+	c  *net.UDPConn
+	to *net.UDPAddr
+	net.Conn
+}
+
+func (u *udpPeer) Write(b []byte) (int, error)        { return u.c.WriteToUDP(b, u.to) }
+func (u *udpPeer) Read(b []byte) (int, error)         { n, _, err := u.c.ReadFromUDP(b); return n, err }
+func (u *udpPeer) Close() error                       { return nil }
+func (u *udpPeer) SetReadDeadline(t time.Time) error  { return u.c.SetReadDeadline(t) }
+func (u *udpPeer) SetWriteDeadline(t time.Time) error { return u.c.SetWriteDeadline(t) }
+
 func finalOracles(rec *recorder, h *handler, cfg *caseCfg, peers []*peer) {
 	rec.mu.Lock()
 	defer rec.mu.Unlock()
@@ -639,7 +744,7 @@ func finalOracles(rec *recorder, h *handler, cfg *caseCfg, peers []*peer) {
 	for fd, kind := range rec.owned {
 		rec.failLocked("fd-leak", kind, fmt.Sprintf("descriptor %d (%s) still open after Run returned", fd, kind))
 	}
-	if cfg.udp {
+	if cfg.udp || cfg.proto == "udp" {
 		return
 	}
 	for _, p := range peers {
